@@ -90,9 +90,10 @@ def compare(src: str, allow_fstrings: bool = False) -> tuple | None:
         if a[0] != b[0]:
             return ("diff", f"TOKENS type {a[0]} vs {b[0]}", {"index": i, "ours": a, "cpython": b})
         if a[0] in _VALUED and a != b:
-            if a[:3] == b[:3] and b[2][0] != b[3][0] and a[3][0] == b[3][0] and not lines[b[3][0] - 1].isascii():
-                # CPython 3.12.1's tokenize module reports the end column of a token that spans lines as a BYTE offset
-                # (it even overlaps the next token then): not compared when the token's last line holds non-ASCII text
+            if a[:3] == b[:3] and b[2][0] != b[3][0] and a[3][0] == b[3][0] and not (b[1] + lines[b[3][0] - 1]).isascii():
+                # CPython 3.12.1's tokenize module gets the end column of a token that spans lines wrong when the token (or
+                # its last line) holds non-ASCII text: a byte offset, or a column short by the multi-byte characters of
+                # earlier lines (test_pegen.py: 26 for a token whose last line is 24 blanks and three quotes). Not compared.
                 continue
             what = "string" if a[1] != b[1] else ("start" if a[2] != b[2] else "end")
             return ("diff", f"TOKENS {a[0]} {what}", {"index": i, "ours": a, "cpython": b})
